@@ -24,7 +24,8 @@ FUNCTIONS = [
     "magpylib._src.fields.field_BH_triangularmesh:lines_end_in_trimesh",
 ]
 BOUNDS = [
-    "base meshes: regular-ish tetrahedron, sliver tetrahedron, triangular prism (8 faces), cube (12 faces); vertices V = s*V0 + t with s in [1e-9,1e9], t in R^3 symbolic",
+    "base meshes: regular-ish tetrahedron, sliver tetrahedron, triangular prism (8 faces), cube (12 faces), two disjoint tetrahedra with interleaved faces; "
+    "vertices V = s*V0 + t with s in [1e-9,1e9], t in R^3 symbolic",
     "tetrahedra: all 16 flip subsets x face orders from a committed list (quick: 2 orders, thorough: all 24); sliver: quick 2 flip subsets; prism / cube: all single "
     "flips and the all-flipped mesh, 2 face orders (quick: 3 flip subsets, 1 order)",
 ]
@@ -41,12 +42,20 @@ PRISM = (np.array([(0, 0, 0), (2, 0, 0), (0, 1, 0), (0, 0, 3), (2, 0, 3), (0, 1,
          [(0, 2, 1), (3, 4, 5), (0, 1, 4), (0, 4, 3), (1, 2, 5), (1, 5, 4), (2, 0, 3), (2, 3, 5)])
 CUBE_V = np.array([(x, y, z) for x in (0, 1) for y in (0, 1) for z in (0, 1)], dtype=float)
 CUBE = (CUBE_V, [(0, 1, 3), (0, 3, 2), (4, 6, 7), (4, 7, 5), (0, 4, 5), (0, 5, 1), (2, 3, 7), (2, 7, 6), (0, 2, 6), (0, 6, 4), (1, 5, 7), (1, 7, 3)])
-BASES = {"tetra": TETRA, "sliver": SLIVER, "prism": PRISM, "cube": CUBE}
+# two disjoint tetrahedra in one mesh; the face orders below interleave the faces of the two parts
+TWO_V = np.concatenate([TETRA[0], TETRA[0] * 2 + np.array([5.0, 1.0, 0.0])])
+TWO = (TWO_V, list(TETRA[1]) + [tuple(i + 4 for i in f) for f in TETRA[1]])
+BASES = {"tetra": TETRA, "sliver": SLIVER, "prism": PRISM, "cube": CUBE, "two-tetra": TWO}
+PART_OF = {"two-tetra": lambda vi: 0 if vi < 4 else 1}
 
 
-def _outward(V0, face):
-    """is the face (vertex index triple) oriented outwards on the base mesh? (exact: centroid of a convex body is interior)"""
-    c = V0.mean(axis=0)
+def _outward(V0, face, base=None):
+    """is the face (vertex index triple) oriented outwards on the base mesh? (exact: centroid of the convex part it belongs to is interior)"""
+    if base in PART_OF:
+        part = PART_OF[base](face[0])
+        c = V0[[i for i in range(len(V0)) if PART_OF[base](i) == part]].mean(axis=0)
+    else:
+        c = V0.mean(axis=0)
     a, b, d = V0[face[0]], V0[face[1]], V0[face[2]]
     n = np.cross(b - a, d - a)
     return float(np.dot(n, a - c)) > 0
@@ -54,7 +63,7 @@ def _outward(V0, face):
 
 def _check_base():
     for nm, (V0, F) in BASES.items():
-        assert all(_outward(V0, f) for f in F), nm
+        assert all(_outward(V0, f, nm) for f in F), nm
 
 
 def cases(tier, seed):
@@ -68,6 +77,13 @@ def cases(tier, seed):
                 if tier == "quick" and base == "sliver" and (flips not in (1, 15) or oi > 0):
                     continue
                 out.append({"id": f"{base}-order{oi}-flips{flips:04b}", "base": base, "order": list(order), "flips": [i for i in range(4) if flips >> i & 1], "weight": 2})
+    # disjoint parts with interleaved faces: orders [A0,B0,A1,B1,...] and [B3,A3,B2,...]; flipped faces in both parts
+    inter = [0, 4, 1, 5, 2, 6, 3, 7]
+    for oi, order in enumerate([inter, inter[::-1]]):
+        for fs in ([], [0], [2, 5], [1, 3, 4, 6], list(range(8))):
+            if tier == "quick" and (oi > 0 or fs not in ([], [2, 5], [1, 3, 4, 6])):
+                continue
+            out.append({"id": f"two-tetra-order{oi}-flips{'_'.join(map(str, fs)) or 'none'}", "base": "two-tetra", "order": order, "flips": fs, "weight": 6})
     for base in ("prism", "cube"):
         nf = len(BASES[base][1])
         orders = [list(range(nf)), list(range(nf))[::-1]]
@@ -119,7 +135,7 @@ def run_case(case, info):
             C.oblige(f"p{C.paths}.raise-witness", p.pc, z3.BoolVal(True), inputs=inputs, on_model=lambda env: {"key": f"C16|fix_trimesh_orientation|raises", "replay": dict(rp, env=env)})
             return
         new_faces = np.asarray(p.out, dtype=int)
-        bad = [i for i, f in enumerate(new_faces) if not _outward(V0, f)]
+        bad = [i for i, f in enumerate(new_faces) if not _outward(V0, f, case["base"])]
         if not bad:
             C.obligations.append({"name": f"p{C.paths}.all-outward", "status": "unsat", "witness": C.witness(p.pc),
                                   "note": "on this path every returned face is oriented outwards (exact check on the base mesh)"})
@@ -158,7 +174,7 @@ def replay(spec):
                                              check_open="ignore", check_disconnected="ignore", check_selfintersecting="ignore")
             except Exception as e:  # noqa
                 return True, f"TriangularMesh(scale {sc:g}) raised {type(e).__name__}: {e}"
-        bad = [i for i, f in enumerate(tm.faces) if not _outward(V0, f)]
+        bad = [i for i, f in enumerate(tm.faces) if not _outward(V0, f, spec["base"])]
         if bad:
             msgs.append(f"scale {sc:g}: faces {bad} point inwards after reorientation")
     return bool(msgs), f"base {spec['base']} order {spec['order']} flipped {spec['flips']}: " + ("; ".join(msgs[:3]) or "all faces outward at every tested scale")
